@@ -334,6 +334,7 @@ RULE = (
     "count (normal approximation of the binomial, |z|<=6.5, per-test false-alarm ~8e-11) plus a centroid z-test. Non-trivial = hull with "
     "simplices of unequal volume (and interior points), a tested volume fraction, an l1 slice or a gamut sample checked by LP."
     " Clouds carry an absolute size factor in {1e-6,1e-4,1e-2,1,1e3}."
+    " Estimator level: l1 down to 0.3 % of the range of totals; with the default engine 400 further samples must reach the corner region (relative depth 0.067^(1/k)) of every receptor axis' LP extent (miss probability < 1e-12)."
 )
 
 PROP = Prop(
